@@ -5,7 +5,7 @@ REGISTRY = {
         'k': [],
         'level_text': 'Per-operation contracts on the key object set: every insert/remove records the superseded object\'s revocation and never drops one (unbounded, all inputs, loop invariants); a manifest/CRL re-issue keeps every unexpired revocation and the CRL is built from exactly that list (unit c14_objectset). "Gone from the repository after the next synchronisation" needs histories and is not decided.',
         'level_note': 'Opaque external types (rpki-rs, HashMap key model), Revocation identity = (serial, expires); callers above the contracted kernels are unverified (DESIGN A8).',
-        'design_ref': 'DESIGN.md section 5 / C03',
+        'design_ref': 'DESIGN.md section 10.4 (as built) and section 5 / C03',
         'not_covered': [],
     },
     'C04': {
@@ -13,24 +13,24 @@ REGISTRY = {
         'k': [],
         'level_text': 'State-machine contracts on the real key-roll code: each apply_* requires exactly its non-panicking phase and ensures the target phase and which key moves where; each emit function produces a key event only in the phase where it is enabled (so the returned sequence can be applied without reaching a panic arm). Inductive per command; liveness and cross-command interleavings beyond per-command preservation are not decided.',
         'level_note': 'CertAuth::apply dispatch from event to apply_* is transcribed in the spec fn ev_enabled (not extracted); signer, renewals and child-certificate re-issue are opaque externals; time is an input.',
-        'design_ref': 'DESIGN.md section 5 / C04',
+        'design_ref': 'DESIGN.md section 10.4 (as built) and section 5 / C04',
         'not_covered': ['CertAuth::apply dispatch (event -> apply_*), CaObjectsStore pre-save handlers', 'liveness: the roll always completes'],
     },
 }
 REGISTRY['C01'] = {
-    'v': ['c01_roamode', 'c01_aggregate'],
+    'v': ['c01_roamode', 'c01_aggregate', 'c01_aspa'],
     'k': [],
     'level_text': 'Object-derivation kernels only: the ROA publication-mode switch is the 4-way table of the statement (an empty relevant set never changes strategy, so aggregated ROAs are still withdrawn by the aggregate path). End-to-end relying-party validity, signatures and synchronisation with the publication server are not decided.',
     'level_note': 'is_currently_aggregating (keys().any(closure)) assumed; everything outside the listed kernels unverified.',
-    'design_ref': 'DESIGN.md section 5 / C01',
-    'not_covered': ['end-to-end RP validation, signatures, sync with the publication server, histories', 'Routes::filter / update_simple / update_aggregate / create_updates of ASPA and BGPsec (iterator chains over HashMaps)'],
+    'design_ref': 'DESIGN.md section 10.4 (as built) and section 5 / C01',
+    'not_covered': ['end-to-end RP validation, signatures, sync with the publication server, histories', 'Routes::filter / update_simple, the issuing loop of AspaObjects::create_updates beyond its filter, BgpSecCertificates::create_updates (iterator chains over HashMaps)'],
 }
 REGISTRY['C05'] = {
     'v': ['c05_routes', 'c05_child', 'c05_aspa'],
     'k': [],
     'level_text': 'Routes::process_updates on the real text: refused exactly when some entry is invalid at its turn (unknown removal; invalid max length, prefix not held, already present with the same comment) -- both directions, for deltas of any length including duplicates inside one delta; an accepted delta returns the specified state and its events replay to it; a refused delta returns only the error. max_length_valid equals the statement definition. AspaDefinitions::process_updates: accepted only if every entry is well-formed (non-empty, no duplicates, customer not a provider) and its customer AS is held and every removal names a customer present at its turn; every refusal has such a reason; an accepted delta is applied entirely (replaying the returned events gives the returned definitions, as provider sets). Child add/update: see c05_child.',
     'level_note': 'ResourceSet::contains_roa_address / contains_asn uninterpreted (held); ASPA: the two provider-diff iterator chains are replaced by an assumed set-difference function (R14) and AspaDefinition::{apply_update, customer_used_as_provider, contains_duplicate_providers} carry assumed set-level contracts; String equality axiom; HashMap key model for RoaPayloadJsonMapKey; derived Clone assumed value-preserving (R11); CertAuth command layer above is unverified (A8).',
-    'design_ref': 'DESIGN.md section 5 / C05',
+    'design_ref': 'DESIGN.md section 10.4 (as built) and section 5 / C05',
     'not_covered': ['BGPsec definition deltas', 'provider order inside an ASPA definition (contracts are over provider sets)', 'repository untouched on refusal (follows from no event, A8)'],
 }
 REGISTRY['C09'] = {
@@ -38,7 +38,7 @@ REGISTRY['C09'] = {
     'k': [],
     'level_text': 'Against a ghost model of the (trusted) queue: a restart leaves no task in the running state and re-queues every task that was running, for any number of running tasks (unbounded loop invariant). The publish path schedules the RRDP update (unit c12_rfc8181). Queue transaction bodies (closure bodies lifted verbatim, R15) against a ghost model of the key-value transaction: schedule_task leaves the task pending exactly once at the time its mode prescribes, soonest modes keep the earlier of the two times, finish modes end the running entry, IfMissing never replaces, other tasks untouched; the claim fold step hands out the earliest due key; finish refuses only what is not running. Eventual execution, crash points and the scheduler loop are not decided.',
     'level_note': 'For the TaskQueue facade commons::queue::Queue is specified by assumed contracts (running/pending sets); in unit c09_queue the key-value Transaction (delete/store/has), task_storage_key/split_storage_key (format!/parse) and get_storage_key_and_time (find_map) carry assumed contracts and std::cmp::min::<u128> is assumed numeric; R7 (&self -> &mut self) lets the ghost model change.',
-    'design_ref': 'DESIGN.md section 5 / C09',
+    'design_ref': 'DESIGN.md section 10.4 (as built) and section 5 / C09',
     'not_covered': ['claim_scheduled_pending_task outside its fold step (list_keys/into_iter/fold glue, move to running)', 'reschedule_long_running_tasks', 'Task::name is injective (queue de-duplicates on names built with format!)', 'crash while a task is running (file system)', 'eventual execution (liveness)'],
 }
 REGISTRY['C10'] = {
@@ -46,15 +46,15 @@ REGISTRY['C10'] = {
     'k': [],
     'level_text': 'Publication-server data-structure contracts on the real text: delta accepted exactly when every URI is in the jail, publishes are new and updates/withdraws match the stated hash (iff, any delta length); applying a delta equals the map-level spec (whole-map equality, so untouched objects are proved untouched); staged-on-staged merge follows the 12-case per-URI table; list content = current + staged. Cross-publisher isolation through HTTP and interleaving with RRDP writes are not decided.',
     'level_note': 'uri::Rsync / Base64 / Hash opaque (is_parent_of, to_hash uninterpreted); HashMap key model; HashMap::get_mut assumed spec; RepositoryManager/HTTP layers unverified (A8).',
-    'design_ref': 'DESIGN.md section 5 / C10',
+    'design_ref': 'DESIGN.md section 10.4 (as built) and section 5 / C10',
     'not_covered': ['interleaving with RRDP file writes, session reset histories', 'publisher_rsync_base string construction'],
 }
 REGISTRY['C11'] = {
-    'v': ['c11_rrdp', 'c11_snapshot'],
+    'v': ['c11_rrdp', 'c11_snapshot', 'c10_staged'],
     'k': [],
-    'level_text': 'In-memory RRDP state only: a session reset restarts at serial 1 without deltas and takes session/snapshot from the reset; truncation by size keeps the longest prefix of the delta list that fits the snapshot size; truncation by age/number keeps a prefix and respects the configured maximum whenever the minimum-retention rules do not apply (the unconditional maximum is a recorded finding, F5). Files on disk, hashes, the rsync directory switch and apply_rrdp_updated (by-value HashMap loop) are not decided.',
+    'level_text': 'In-memory RRDP state only: the next delta is derived from the staged changes by the merge table of unit c10_staged (publish/update/withdraw on top of earlier staged changes, withdraw carrying the hash of the object visible in RRDP); a session reset restarts at serial 1 without deltas and takes session/snapshot from the reset; truncation by size keeps the longest prefix of the delta list that fits the snapshot size; truncation by age/number keeps a prefix and respects the configured maximum whenever the minimum-retention rules do not apply (the unconditional maximum is a recorded finding, F5). Files on disk, hashes, the rsync directory switch and apply_rrdp_updated (by-value HashMap loop) are not decided.',
     'level_note': 'DeltaElements/SnapshotData sizes uninterpreted; the clock is an input (is_younger / is_older uninterpreted); VecDeque length < usize::MAX and no usize overflow of the summed delta sizes are preconditions.',
-    'design_ref': 'DESIGN.md section 5 / C11',
+    'design_ref': 'DESIGN.md section 10.4 (as built) and section 5 / C11',
     'not_covered': ['RrdpServer::apply_rrdp_updated (iterates a HashMap by value; a Kani harness over real URIs/Base64/HashMap gave no verdict in 25 min and was dropped)', 'files on disk, hashes, notification switch, rsync tmp/current/old switch', 'apply_rrdp_staged frame (HashMap::entry)'],
 }
 REGISTRY['C12'] = {
@@ -62,7 +62,7 @@ REGISTRY['C12'] = {
     'k': [],
     'level_text': 'Control-flow contracts: a child key revocation acts only on a key that the SENDING child has in use (not on a sibling\'s key), under that child\'s class-name mapping. Validate-before-process capability contracts for the RFC 6492 / RFC 8181 endpoints are listed per unit. The CMS/crypto itself is assumed sound.',
     'level_note': 'ProvisioningCms/PublicationCms::validate assumed sound (rpki-rs + OpenSSL); decoder robustness against bit flips not decided.',
-    'design_ref': 'DESIGN.md section 5 / C12',
+    'design_ref': 'DESIGN.md section 10.4 (as built) and section 5 / C12',
     'not_covered': ['bit-flip robustness of the CMS decoders', 'no change of state on refusal beyond the processing function not being called'],
 }
 REGISTRY['C13'] = {
@@ -70,7 +70,7 @@ REGISTRY['C13'] = {
     'k': [],
     'level_text': 'Evaluation core: Role::is_allowed is exactly "per-CA grant beats blanket grant, non-CA requests use the general grant"; AuthInfo::check_permission grants exactly when the authenticated role allows, and passes an authentication error on. Route table: every handler reaches a state-touching facade method only after proceed_permitted with the permission the operation requires for the addressed CA (capability preconditions on the facade; oracle table written from the statement).',
     'level_note': 'PermissionSet::has uninterpreted in the V units (its bit algebra is decided by the K group); facade = KrillManager methods as assumed externals; listing handlers filtering inside closures not covered.',
-    'design_ref': 'DESIGN.md section 5 / C13',
+    'design_ref': 'DESIGN.md section 10.4 (as built) and section 5 / C13',
     'not_covered': ['cas.rs::index_get outside its filter closure (ca_handles / collect glue; the closure that decides which CAs are listed is verified)', 'root.rs::ui / assets (static files from a build artefact)', 'metrics.rs and auth.rs (login) handlers', 'HTTP status mapping; effects of refused calls beyond the facade not being called'],
 }
 REGISTRY['C14'] = {
@@ -78,7 +78,7 @@ REGISTRY['C14'] = {
     'k': [],
     'level_text': 'Per-key contracts on the real text: a re-issue raises the revision number by exactly one, builds CRL and manifest from the same revision (numbers and validity windows agree), leaves the payload set unchanged, builds the CRL from the key\'s own (pruned) revocations and the manifest from CRL + exactly the published objects; a class is due iff any of its key sets (current, staging, old) is due and a re-issue covers all of them. Whether the maintenance tasks run and whether windows contain the present (wall clock) is not decided.',
     'level_note': 'PublishedCrl::build, ManifestBuilder::build_new_mft / with_objects, Revocations::remove_expired are assumed externals (rpki-rs builders, signer); time is an input.',
-    'design_ref': 'DESIGN.md section 5 / C14',
+    'design_ref': 'DESIGN.md section 10.4 (as built) and section 5 / C14',
     'not_covered': ['CaObjects::re_issue (HashMap::values_mut loop: outside engine V; K harness would need real signed objects)', 'renewal of ROAs/ASPAs/BGPsec certificates (create_renewal)', 'validity windows contain the present'],
 }
 REGISTRY['C15'] = {
@@ -86,7 +86,7 @@ REGISTRY['C15'] = {
     'k': [],
     'level_text': 'Proxy side on the real text: a signer response is accepted exactly when a request is open, the nonce equals it, a signer is associated and the response is genuine under that signer\'s ID key (iff); one open request at a time; validate of signed request/response = CMS valid AND clear text equals signed content (iff); apply sets/replaces the associated signer as a whole and removes a delivered child response. The signer\'s process_signer_request and the SignerResponseReceived apply arm iterate HashMaps by value and are not covered.',
     'level_note': 'CMS validation, JSON decoding and PartialEq of payload types are assumed externals; mft_number_override assumed increasing (A7).',
-    'design_ref': 'DESIGN.md section 5 / C15',
+    'design_ref': 'DESIGN.md section 10.4 (as built) and section 5 / C15',
     'not_covered': ['TrustAnchorSigner::process_signer_request (by-value HashMap loop)', 'TrustAnchorProxy::apply arm SignerResponseReceived (by-value HashMap loops)', 'manifest/CRL numbers only increase across re-initialisation histories'],
 }
 REGISTRY['C17'] = {
@@ -95,7 +95,7 @@ REGISTRY['C17'] = {
     'level_text': 'Validation core: validate agrees with RFC 6811 for covering lists of any length and both families (Verus, unbounded, generic over RoutePrefix); the classification predicates inside categorise_roa (closure bodies lifted verbatim, R15): a ROA is called redundant exactly when the other ROA validates everything it validates, authorizes exactly the covered origins it matches, disallows exactly the invalid ones (Verus, unbounded; the prefix algebra it assumes is proved by Kani); the RoutePrefix implementations equal their bit-level meaning and are reflexive/transitive/length-monotone with sub-prefixes of every length, over the full domain (Kani, complete). validate_set end to end is a bounded stand-in (2 ROAs x 1 origin over a 4-prefix universe).',
     'level_note': 'Harness inputs satisfy the prefix type invariant; suggestion post-processing over large sets not decided.',
     'technique': 'Verus contracts on extracted real text + Kani full-domain harnesses on the real crate',
-    'design_ref': 'DESIGN.md section 5 / C17',
+    'design_ref': 'DESIGN.md section 10.4 (as built) and section 5 / C17',
     'not_covered': ['the iterator chains of categorise_roa around the verified predicates, the too-permissive heuristic, AS0 handling', 'prefix-tree lookup (RisWhois) vs brute force', 'suggestion post-processing over large sets'],
 }
 REGISTRY['C16'] = {
@@ -104,7 +104,7 @@ REGISTRY['C16'] = {
     'level_text': 'Absence of arithmetic overflow, bad shifts, slice/index out of bounds and unwrap-None in the client-reachable pure helpers (api::roa prefix/payload algebra; more groups below), decided by CBMC over the full input domain of loop-free code (complete), string parsers bounded and labelled so. The CMS/XML/JSON decoders that take the raw bytes are not decided.',
     'level_note': 'Harness inputs are built by constructors encoding the type invariants; overflow judged as in a debug build; rpki-rs/bcder/serde_json/hyper decoders are outside.',
     'technique': 'Kani function contracts and full-domain loop-free harnesses (CBMC) on the real crate',
-    'design_ref': 'DESIGN.md section 5 / C16',
+    'design_ref': 'DESIGN.md section 10.4 (as built) and section 5 / C16',
     'not_covered': ['rpki-rs CMS and XML decoders, serde_json, hyper (the larger half of the statement)', 'krill string parsers (BgpSecAsnKey / AspaDefinition / RoaPayload FromStr): str::split + collect under CBMC gave no verdict in 15 min at 11 GB for 3 symbolic bytes (design-probes/k_api_bgpsec_NO_VERDICT.rs); Verus has no str reasoning'],
 }
 
@@ -114,7 +114,7 @@ REGISTRY['C20'] = {
     'k_thorough': ['k_admin_token'],
     'level_text': 'Credential kernels on the real text: the admin token authenticates exactly when the bearer token is byte-equal to the configured one (wrong token is an error, no token is nobody) and then acts as the configured identity; decrypt rejects short payloads without slicing out of bounds, passes nonce/tag/ciphertext to AEAD-open in the right positions and returns only what it returned (rejected iff the tag fails). scrypt, base64, Unicode normalisation of user names and session-cache hits are not decided.',
     'level_note': 'ChaCha20-Poly1305 open, bearer-token extraction, Token equality (derived PartialEq over String) are assumed externals.',
-    'design_ref': 'DESIGN.md section 5 / C20',
+    'design_ref': 'DESIGN.md section 10.4 (as built) and section 5 / C20',
     'not_covered': ['config_file provider login (scrypt, hex, Unicode normalisation)', 'session cache hits (tokio RwLock)', 'OpenID Connect provider'],
 }
 
@@ -130,6 +130,6 @@ REGISTRY['C02'] = {
     'k': [],
     'level_text': 'Per-operation contracts on the issuing side only: (1) issue_cert/make_issued_cert issue limit(issuer-certificate ∩ entitlement), refuse anything outside the issuing certificate, and the signed certificate carries exactly the recorded set; (2) the per-class certificate store keeps one record per child key (issued XOR suspended) under every mutator, whatever the suspension history; (3) shrink_overclaiming handles every over-claiming certificate (issued and suspended) by re-issuing exactly limit(new ∩ old) inside the new certificate, or revoking when nothing is left, and touches nothing else; activate_key re-issues every certificate in its own category; (4) process_rcvd_cert_current puts that update in the same event set as CertificateReceived (unbounded, all stores, loop invariants); (5) append_child_certify may only be called with resources inside the current entitlement of that child; process_child_certify and process_child_unsuspend (re-issue after a suspension) discharge that precondition; (6) idempotence kernel: a received certificate clears the open request (set_incoming_cert / apply_received_cert, unit c04_keystate) and wants_update asks for nothing when the certificate already carries the entitled resources and not-after time, and always asks when the resources differ. Convergence and idempotence of parent-child synchronisation over histories are not decided.',
     'level_note': 'ResourceSet algebra (contains/intersection/is_empty/difference), RequestResourceLimit::apply_to, make_tbs_cert, CertInfo::create and the signer are assumed contracts on externals; HashMap key model assumed for KeyIdentifier; Config is a one-field stub in c02_rcvd; c02_wants: chrono timestamps assumed within +-2^60, IEEE division assumed total, Rsync::ends_with uninterpreted.',
-    'design_ref': 'DESIGN.md section 5 / C02',
+    'design_ref': 'DESIGN.md section 10.4 (as built) and section 5 / C02',
     'not_covered': ['the 10% / one-week re-request thresholds of wants_update (f64 quotient left uninterpreted)', 'KeyState::append_entitlement_events (iterator adapter loop), in particular which key id is requested in RollOld', 'entitlement class computation (certauth.rs:986-1084)', 'sync driver (manager.rs), taproxy/tasigner issuance', 'convergence in a bounded number of syncs; idempotence of a further sync (history properties)', 'publication of the ChildCertificatesUpdated event (covered per operation under C03/C04 units)'],
 }
